@@ -70,6 +70,7 @@ class World:
     name = "basisworld"
     prop_id = "C04"
     level = "fault_enumeration"
+    quick_enum_bases = 64        # quick tier: all single-fault placements of the first 64 sampled programs (thorough: of all)
     quick_runs = 5000
     thorough_budget_s = 900
     run_timeout = 120.0
